@@ -1,6 +1,7 @@
 (* C13 property theorems (statements only; proofs are in Proofs.v).
-   The tree machine step/run is C13/Model.v; check_new_child, child_limits,
-   calculate_max_children, advertised and the constants are SlskGen.DistGen, regenerated from
+   The tree machine step/run is C13/Model.v (the code after the repairs of F10 and F11);
+   check_new_child, child_limits, calculate_max_children, advertised, take_as_parent,
+   parent_update_tells_server and the constants are SlskGen.DistGen, regenerated from
    /repo/src/aioslsk/distributed.py and constants.py on every run. *)
 From Slsk Require Import Base.Tac.
 From SlskGen Require Import DistGen.
@@ -23,42 +24,45 @@ Theorem C13_child_limit_spec : forall speed mn rt, 0 <= speed -> 0 < rt ->
   (below = false -> acc = true /\ mx * (rt * 1024) <= speed * 10 < (mx + 1) * (rt * 1024)).
 Proof. exact child_limit_spec. Qed.
 
-(* Tree invariant (<= 1 parent by type; parent and children live, children distinct, parent not a
-   child) after every event list and every Hold/Release schedule in which no connection that is
-   currently a CHILD announces a branch level / root (the shape of finding F10). *)
-Theorem C13_tree_inv_partial : forall evs,
-  along (fun s e => negb (child_announces s e)) init evs = true -> tree_inv (run init evs).
+(* Tree invariant after EVERY event list and every Hold/Release schedule: at most one parent (by
+   type), parent and children are live connections, no connection is a child twice, the parent is
+   not among the children.  (Full statement: F10 is repaired.) *)
+Theorem C13_tree_inv : forall evs, tree_inv (run init evs).
 Proof. intros evs. apply tree_inv_run. exact tree_inv_init. Qed.
 
-(* Without that side condition the invariant is false of the current code (F10). *)
-Theorem C13_tree_inv_refuted : exists evs, ~ tree_inv (run init evs).
-Proof. exact tree_inv_refuted. Qed.
-
-(* Unconditionally: the parent is a live distributed connection. *)
-Theorem C13_parent_live : forall evs p, parent (run init evs) = Some p -> live p (run init evs) = true.
-Proof. exact parent_live. Qed.
-
 (* What the server was last told (level, root, parent search) is the position derived from the
-   current parent, after every event list / schedule in which the CURRENT PARENT does not announce
-   new values (the shape of finding F11). *)
-Theorem C13_advertised_truthful_server_partial : forall evs,
-  along (fun s e => negb (parent_updates s e)) init evs = true -> server_truthful (run init evs).
+   current parent, after EVERY event list / schedule, whenever a session exists - also after the
+   parent announces new values or is lost.  (Full statement: F11 is repaired.) *)
+Theorem C13_advertised_truthful_server : forall evs, server_truthful (run init evs).
 Proof. intros evs. apply told_server_run; [exact base_init | exact K_init]. Qed.
 
-(* With updates from the parent the statement is false of the current code (F11). *)
-Theorem C13_advertised_truthful_refuted : exists evs, ~ server_truthful (run init evs).
-Proof. exact told_server_refuted. Qed.
+(* What every live child was last told is the position derived from the current parent, whenever
+   no handler is suspended, after every event list / schedule in which tree events and resumptions
+   happen while a session exists ... *)
+Theorem C13_advertised_truthful_children_partial : forall evs,
+  along session_present init evs = true -> pend (run init evs) = [] -> children_truthful (run init evs).
+Proof. exact children_told_run. Qed.
 
-(* non-vacuity: a history meeting both side conditions with a parent chosen among two candidates,
-   a child admitted, the parent lost under Hold and a new one chosen before Release *)
+(* ... and false without that condition (finding F27: tree changes while logged out). *)
+Theorem C13_advertised_truthful_children_refuted :
+  exists evs, pend (run init evs) = [] /\ ~ children_truthful (run init evs).
+Proof. exact children_told_refuted. Qed.
+
+(* non-vacuity: a parent chosen among two candidates, a child admitted, the parent lost under Hold
+   and a new one chosen before Release; then the new parent announces another level; and the two
+   histories that exhibited F10 / F11 before the repair now satisfy the invariants non-trivially *)
 Definition nv_history : list event :=
   [SessionInit; PotentialParents [1%nat; 2%nat]; PeerInit 1%nat 1%nat true; PeerInit 2%nat 2%nat true; PeerInit 3%nat 3%nat false;
-   BranchLevel 1%nat 4; BranchLevel 2%nat 0; Hold; ConnClosed 2%nat; PeerInit 4%nat 1%nat true; BranchRoot 4%nat 6%nat; BranchLevel 4%nat 1; Release].
+   BranchLevel 1%nat 4; BranchLevel 2%nat 0; Hold; ConnClosed 2%nat; PeerInit 4%nat 1%nat true; BranchRoot 4%nat 6%nat; BranchLevel 4%nat 1; Release;
+   BranchLevel 4%nat 7].
 Example C13_nonvacuous :
-  along (fun s e => negb (child_announces s e)) init nv_history = true /\
-  along (fun s e => negb (parent_updates s e)) init nv_history = true /\
+  along session_present init nv_history = true /\ pend (run init nv_history) = [] /\
   parent (run init nv_history) = Some 4%nat /\ children (run init nv_history) = [3%nat] /\
-  told_server (run init nv_history) = Some (2, 6%nat, false) /\
-  lookup_told 3%nat (run init nv_history) = Some (2, 6%nat) /\
-  gained_child (run init (firstn 4 nv_history)) (step (run init (firstn 4 nv_history)) (PeerInit 3%nat 3%nat false)) 3%nat.
+  told_server (run init nv_history) = Some (8, 6%nat, false) /\
+  lookup_told 3%nat (run init nv_history) = Some (8, 6%nat) /\
+  gained_child (run init (firstn 4 nv_history)) (step (run init (firstn 4 nv_history)) (PeerInit 3%nat 3%nat false)) 3%nat /\
+  (* F10 history: the announcing child is disconnected, not made parent *)
+  parent (run init f10_witness) = None /\ children (run init f10_witness) = [] /\ conns (run init f10_witness) = [] /\
+  (* F11 history: the server is told the new level of the parent + 1 *)
+  told_server (run init f11_witness) = Some (6, 5%nat, false).
 Proof. vm_compute. repeat split; try reflexivity. - left; reflexivity. - intros []. Qed.
